@@ -2,6 +2,7 @@ package msg
 
 import (
 	"bytes"
+	"fmt"
 	"math/rand/v2"
 	"strings"
 
@@ -263,7 +264,20 @@ func detGen(r *rand.Rand, n int, emit func(core.Case)) {
 		default:
 			name, dyn := splitType(types[r.IntN(len(types))])
 			md := NewObj(name, dyn).Descriptor()
-			emit(core.Case{"op": "det", "type": name, "dyn": dyn, "lit": randLit(r, md, 3), "id": i})
+			lit := randLit(r, md, 3)
+			if name == "goproto.proto.test.TestAllExtensions" && r.IntN(2) == 0 {
+				// a rich payload (maps with several entries, lists, oneofs) below a singular message extension
+				pd := NewObj("goproto.proto.test.TestAllTypes", false).Descriptor()
+				var pl map[string]any
+				for try := 0; try < 20; try++ {
+					pl = randLit(r, pd, 3)
+					if strings.Contains(fmt.Sprint(pl), "p:[") || try == 19 {
+						break
+					}
+				}
+				lit = map[string]any{"f": []any{[]any{RichExtNumber, map[string]any{"m": pl}}}, "u": []any{}}
+			}
+			emit(core.Case{"op": "det", "type": name, "dyn": dyn, "lit": lit, "id": i})
 		}
 	}
 }
